@@ -65,11 +65,13 @@ CLAIMS = {
              "every instance field an optimizer writes during a run is re-bound unconditionally in a per-run hook before any read; "
              "FRAME-book. Bounded: second optimize() on a used instance equals a fresh instance, all 84 optimizers.",
              NOTE_VC + NOTE_HOOKS, TECH_VC + "; " + TECH_EFF + "; " + TECH_BND),
-    "C09": C("EFF FRAME-cfg on every store site of the kernel and of the 84 optimizers: no assignment, augmented assignment, subscript store "
+    "C09": C("Proved (kernel): optimize() leaves every field of every object that existed at entry and every list that existed at entry "
+             "unchanged, except the optimizer's own run state - on normal and on ValueError exits (frame postcondition and loop invariant, "
+             "against the hook contracts). EFF FRAME-cfg on every store site of the 84 optimizers: no assignment, augmented assignment, subscript store "
              "or mutating call whose target is rooted at self._config / self._task / task, directly or through a local alias of a mutable "
              "sub-object (scalar config fields are immutable). Bounded: model_dump() of configuration and task before / after every run.",
-             "Trusted: the EFF rule table (syntactic, intra-procedural alias tracking); mutation by the user's objective is out of scope.",
-             TECH_EFF + "; " + TECH_BND),
+             NOTE_VC + "Trusted: the EFF rule table (syntactic, intra-procedural alias tracking); mutation by the user's objective is out of scope.",
+             TECH_VC + "; " + TECH_EFF + "; " + TECH_BND),
     "C10": C("Proved: length clauses of _generate_agents (serial and pooled: a permutation keeps the length), _init_population, sort_and_trim, "
              "_extend / _replace_and_trim, _greedy_select_population, get_pool_results, the Population constructor and optimize()'s invariant "
              "(1 <= len <= population_size for every generation; = population_size for fixed-size classes, as an abstract predicate). "
